@@ -160,6 +160,24 @@ func sweepRecheckRule(c *Ctx, ruleID string) {
 				return
 			}
 		}
+		// the removal acts on the key re-checked in this very iteration: collecting "expired" keys first and
+		// removing them in a later pass re-opens the window in which a re-write is swept away
+		for _, ci := range allCalls(fn) {
+			cc := ci.Common()
+			var got string
+			switch calleeName(cc) {
+			case "defaultPolicy.Del", "defaultPolicy.Cost":
+				got = tb.T(cc.Args[1]).String()
+			case "iface:store.Del":
+				got = tb.T(cc.Args[0]).String()
+			default:
+				continue
+			}
+			if got != key {
+				L.Fail(ruleID, "expirationMap.cleanup", "the sweep calls "+calleeName(cc)+" on "+got+", not on the key whose current expiration it has just re-checked ("+key+"): the re-check and the removal are separated, a key re-written in between is removed although its new expiration has not passed", ci.Pos())
+				return
+			}
+		}
 		// the fetch happens after the bucket grab: in the per-key loop, i.e. dominated by next
 		L.Check(instrDominates(next, expCall), ruleID, "expirationMap.cleanup", "policy.Del / store.Del / report only when the store's current expiration is non-zero and has passed", "the expiration is fetched before the per-key loop", expCall.Pos())
 	})
